@@ -8,6 +8,7 @@
 package main
 
 import (
+	"fmt"
 	"strings"
 	"time"
 
@@ -98,6 +99,39 @@ func genArg(r *hv.Rng, kind int) condh.Arg {
 }
 
 // a valid-looking argument for position si of primitive name (so that most calls get past the validators)
+// structured time strings: field boundaries of time.Parse (month 0/13, day 0/28..32 incl. leap years, hour 24,
+// minute/second 60), zone letters (both cases, J, two letters), lengths 13..16
+func genTimeStr(r *hv.Rng, tod bool) string {
+	pick := func(xs ...int) int { return xs[r.Intn(len(xs))] }
+	y := pick(2019, 2020, 2000, 1900, 2100, 1970, 1969, 0, 9999, 2024)
+	mo := pick(1, 2, 2, 2, 4, 12, 0, 13, 6, 11)
+	d := pick(1, 28, 29, 30, 31, 0, 32, 15)
+	h := pick(0, 12, 23, 24, 20, 8)
+	mi := pick(0, 30, 59, 60, 45)
+	se := pick(0, 59, 60, 30, 1)
+	zone := string("YXWVUTSRQPONZABCDEFGHIKLMJyzahjm09"[r.Intn(34)])
+	if r.Chance(1, 10) {
+		zone = []string{"", "ZZ", "HH", "Zx", "+8", "UTC"}[r.Intn(6)]
+	}
+	var t string
+	if tod {
+		t = fmt.Sprintf("%02d%02d%02d", h, mi, se)
+	} else {
+		t = fmt.Sprintf("%04d%02d%02d%02d%02d%02d", y, mo, d, h, mi, se)
+	}
+	switch r.Intn(12) {
+	case 0: // drop a digit
+		j := r.Intn(len(t))
+		t = t[:j] + t[j+1:]
+	case 1: // a non-digit inside
+		j := r.Intn(len(t))
+		t = t[:j] + string("x+- :"[r.Intn(5)]) + t[j+1:]
+	case 2: // an extra digit
+		t += "0"
+	}
+	return t + zone
+}
+
 func goodArg(r *hv.Rng, name string, kind, si int) condh.Arg {
 	if kind != 1 {
 		return genArg(r, kind)
@@ -117,6 +151,16 @@ func goodArg(r *hv.Rng, name string, kind, si int) condh.Arg {
 		return pick("10.0.0.1", "10.0.0.1|10.0.0.2", "10.0.0.1|x", "::1|1.1.1.1", "", "|", "1.1.1.1|")
 	case name == "req_host_in":
 		return pick("www.example.com|example.com", "a:80", "a|b:1", "", ":", "[::1]")
+	case name == "bfe_time_range" && r.Chance(1, 2):
+		if si == 0 {
+			return condh.Arg{Kind: 1, Val: genTimeStr(r, false)}
+		}
+		return pick("20991231235959Z", "20991231235959H", genTimeStr(r, false), "99991231235959Z")
+	case name == "bfe_periodic_time_range" && si < 2 && r.Chance(1, 2):
+		if si == 0 {
+			return pick("000000H", "000000Z", genTimeStr(r, true))
+		}
+		return condh.Arg{Kind: 1, Val: genTimeStr(r, true)}
 	case name == "bfe_time_range":
 		return pick("20190204203000H", "20190204204500H", "20190204203000Z", "20190204203000", "20191304203000H", "20190204203000J", "20190204203000 H", "x", "20190204203000h", "", "20190204123000A")
 	case name == "bfe_periodic_time_range":
@@ -260,7 +304,7 @@ var lexemes = []string{"(", ")", "&&", "||", "!", ",", " ", "\t", "\n", "\r\n", 
 // boundary stream: a well-formed frame with one lexical boundary case inserted
 var escs = []string{`\377`, `\400`, `\777`, `\000`, `\08`, `\8`, `\12`, `\x41`, `\x4`, `\x4g`, `\xff`, `\X41`, `\u0041`, `\u004`, `\uD7FF`, `\uD800`, `\uDFFF`, `\uE000`,
 	`\udfff`, `\U0010FFFF`, `\U00110000`, `\U0000004`, `\U00000041`, `\a`, `\b`, `\f`, `\n`, `\r`, `\t`, `\v`, `\\\\`, `\"`, `\'`, `\q`, `\e`, `\0`, `\`, "a\nb", "a\rb", "a\tb", "a\x00b", "//", "`", "'", "a|b", ""}
-var joins = []string{"&&", "||", "&", "|", "& &", "| |", "&&&", "|||", "&|", "// c\n&&", "//&&\n||", "&& // c", "&&//", "/ &&", "/* */ &&", "\x00&&", "&&\x00", ";", "&&;", ",", "&& !", "&&!(", ") && (", "&&\n", "\r&&\r", "\t||\t", "&& true &&", "&& x &&", "&& 1 &&", "&& \"s\" &&", "!", ""}
+var joins = []string{"&&", "||", "&", "|", "& &", "| |", "&&&", "|||", "&|", "// c\n&&", "//&&\n||", "&& // c", "&&//", "// c\r)", "// c\r\n&&", "/ &&", "/* */ &&", "\x00&&", "&&\x00", ";", "&&;", ",", "&& !", "&&!(", ") && (", "&&\n", "\r&&\r", "\t||\t", "&& true &&", "&& x &&", "&& 1 &&", "&& \"s\" &&", "!", ""}
 var frames = []string{"default_t()", "req_method_in(\"GET\")", "(default_t())", "!default_t()", "req_path_in(\"/a\", true)"}
 
 func genBoundary(r *hv.Rng) (string, hv.Val) {
@@ -354,6 +398,14 @@ func genText(r *hv.Rng) (string, hv.Val) {
 }
 
 func gen(r *hv.Rng, i int, tier string) (string, hv.Val) {
+	if i < 104 { // exhaustive sweep of the zone letters (both cases) through ParseTime and ParseTimeOfDay
+		z := string("ABCDEFGHIJKLMNOPQRSTUVWXYZabcdefghijklmnopqrstuvwxyz"[i%52])
+		name, args := "bfe_time_range", []condh.Arg{{Kind: 1, Val: "20190204203000" + z}, {Kind: 1, Val: "20991231235959Z"}}
+		if i >= 52 {
+			name, args = "bfe_periodic_time_range", []condh.Arg{{Kind: 1, Val: "203000" + z}, {Kind: 1, Val: "235959" + z}, {Kind: 1, Val: ""}}
+		}
+		return "call-zone", hv.L{hv.I(2), hv.S(name), condh.ArgsVal(args), condh.Oracle(name, args, nil)}
+	}
 	if r.Chance(1, 3) {
 		return genText(r)
 	}
@@ -434,5 +486,5 @@ func gen(r *hv.Rng, i int, tier string) (string, hv.Val) {
 }
 
 func main() {
-	hv.Main(&hv.Spec{Prop: "C17", Gen: gen, Impl: impl, NQuick: 20000, NThorough: 1000000, Deadline: 5 * time.Second})
+	hv.Main(&hv.Spec{Prop: "C17", Gen: gen, Impl: impl, NQuick: 15000, NThorough: 1000000, Deadline: 5 * time.Second})
 }
